@@ -277,6 +277,27 @@ def generic_mutants(source, func_lines, rnd, limit):
             sites.append(('del', n))
         elif isinstance(n, ast.If):
             sites.append(('neg', n))
+    # two adjacent simple statements where the second reads a name, or an object, the first writes: swapped
+    for n in ast.walk(tree):
+        for field in ('body', 'orelse', 'finalbody'):
+            b = getattr(n, field, None)
+            if not (isinstance(b, list) and b and isinstance(b[0], ast.stmt)):
+                continue
+            for s1, s2 in zip(b, b[1:]):
+                ln = getattr(s1, 'lineno', None)
+                if ln is None or not any(a_ <= ln <= b_ for a_, b_ in func_lines):
+                    continue
+                if not all(isinstance(x, (ast.Assign, ast.AugAssign)) for x in (s1, s2)):
+                    continue
+                w = set()
+                for t in (s1.targets if isinstance(s1, ast.Assign) else [s1.target]):
+                    e = t
+                    while isinstance(e, (ast.Subscript, ast.Attribute)) and not (isinstance(e, ast.Attribute) and isinstance(e.value, ast.Name) and e.value.id == 'self'):
+                        e = e.value
+                    w |= {ast.dump(e).replace('Store()', 'Load()')} if isinstance(e, (ast.Name, ast.Attribute)) else set()
+                r = {ast.dump(x) for x in ast.walk(s2.value) if isinstance(x, (ast.Name, ast.Attribute))}
+                if w & r:
+                    sites.append(('swap', s1))
     rnd.shuffle(sites)
     out = []
     for kind, node in sites:
@@ -302,6 +323,21 @@ def generic_mutants(source, func_lines, rnd, limit):
             target.args[0], target.args[1] = target.args[1], target.args[0]
         elif kind == 'neg':
             target.test = ast.UnaryOp(op=ast.Not(), operand=target.test)
+        elif kind == 'swap':
+            done = False
+            for m in ast.walk(t2):
+                for field in ('body', 'orelse', 'finalbody'):
+                    b = getattr(m, field, None)
+                    if isinstance(b, list) and target in b:
+                        i = b.index(target)
+                        if i + 1 < len(b):
+                            b[i], b[i + 1] = b[i + 1], b[i]
+                            done = True
+                        break
+                if done:
+                    break
+            if not done:
+                continue
         elif kind == 'del':
             class Del(ast.NodeTransformer):
                 def generic_visit(self, n):
